@@ -21,10 +21,12 @@ def main():
     for d in r["diags"]:
         if d.get("level") in ("error", "warning") and "aborting due" not in d.get("message", ""):
             if d.get("level") == "warning" and "-w" not in extra: continue
+            if "__vx_canary_" in E.render_diag(d) and "ensures false" in E.render_diag(d): continue
             print(E.render_diag(d))
     print(json.dumps(r["json"]["verification-results"]))
     fr = E.function_results(r)
-    bad = [k for k, v in fr.items() if not v["success"]]
+    bad = [k for k, v in fr.items() if not v["success"] and "__vx_canary_" not in k]
+    print("canaries verified (BAD):", [k for k, v in fr.items() if v["success"] and "__vx_canary_" in k])
     print("failed functions:", bad)
     slow = sorted(fr.items(), key=lambda kv: -kv[1]["time_us"])[:5]
     print("slowest:", [(k, v["time_us"] // 1000) for k, v in slow], "wall", round(r["wall"], 1))
